@@ -12,11 +12,16 @@
    An update is a tag (N); merging = appending to the list of tags in the slot (the abstract
    monoid of updates; every closure the driver passes to `modify` first does
    `slot.get_or_insert_default()` and then merges into it, see cluster/metadata/update.rs).
-   [SMerge None] is a closure that leaves the slot as it is (exercises `if has_value`). *)
+   The closure handed to `modify` is one of three classes (the API allows all of them, see the
+   doc comment of Sender::modify and the crate's test modify_may_decide_not_to_send):
+   [CMerge x] merges an update in (inflationary), [CNoop] leaves the slot as it is,
+   [CClear] sets the slot to None - it retracts whatever was pending.  The driver's own closures
+   are all of the first class (Model/MetaUpdate.v, C19_merge_never_clears + census). *)
 From SV Require Import Base.Prelude Model.Sched.
 Open Scope N_scope.
 
 Definition upd := N.
+Inductive closure := CMerge (x : upd) | CNoop | CClear.
 
 (* ---- tokio::sync::Notify, restricted to at most one Notified future -------------------- *)
 (* the single waiter node: not in the list / linked in the list (with or without a stored
@@ -73,7 +78,7 @@ Definition init : state :=
 Inductive label :=
 (* Sender::modify *)
 | SCheck                          (* if receiver_dropped.load() { return Err } *)
-| SMerge (u : option upd)         (* lock; f(&mut slot); has_value = slot.is_some(); unlock *)
+| SMerge (c : closure)            (* lock; f(&mut slot); has_value = slot.is_some(); unlock *)
 | SNotify                         (* if has_value { notify_one() }; Ok(()) *)
 (* Drop for Sender *)
 | SDropFlag                       (* sender_dropped.store(true) *)
@@ -121,13 +126,22 @@ Definition add_result (s : state) (b : bool) : state :=
   mkState (slot s) (permit s) (wtr s) (sender_dropped s) (receiver_dropped s) (s_pc s) (r_pc s)
           (merged s) (delivered s) (send_results s ++ [b]) (wakes s) (woken s).
 
-(* the closure: merge the update into the pending value *)
-Definition merge_slot (sl : option (list upd)) (u : option upd) : option (list upd) :=
-  match u with
-  | None => sl
-  | Some x => Some (match sl with Some l => l ++ [x] | None => [x] end)
+(* the closure applied to the slot *)
+Definition merge_slot (sl : option (list upd)) (c : closure) : option (list upd) :=
+  match c with
+  | CNoop => sl
+  | CClear => None
+  | CMerge x => Some (match sl with Some l => l ++ [x] | None => [x] end)
   end.
-Definition upd_list (u : option upd) : list upd := match u with Some x => [x] | None => [] end.
+(* ghost: [merged] = the updates merged in and not retracted by the producer.  A clearing closure
+   retracts exactly the content of the slot, which is the tail of [merged] *)
+Definition drop_last (n : nat) (l : list upd) : list upd := firstn (List.length l - n) l.
+Definition merged_after (mg : list upd) (sl : option (list upd)) (c : closure) : list upd :=
+  match c with
+  | CMerge x => mg ++ [x]
+  | CNoop => mg
+  | CClear => drop_last (List.length (match sl with Some l => l | None => [] end)) mg
+  end.
 
 Definition step (s : state) (lb : label) : option state :=
   match lb with
@@ -142,7 +156,7 @@ Definition step (s : state) (lb : label) : option state :=
           let sl := merge_slot (slot s) u in
           let s1 := mkState sl (permit s) (wtr s) (sender_dropped s) (receiver_dropped s)
                             (match sl with Some _ => SNeedNotify | None => SIdle end) (r_pc s)
-                            (merged s ++ upd_list u) (delivered s) (send_results s) (wakes s) (woken s) in
+                            (merged_after (merged s) (slot s) u) (delivered s) (send_results s) (wakes s) (woken s) in
           Some (match sl with Some _ => s1 | None => add_result s1 true end)
       | _ => None
       end
@@ -255,7 +269,7 @@ Definition delivered_values (s : state) : list upd := concat (map ret_val (deliv
 Inductive poll_result := Pending | Ready (v : option (list upd)).
 
 (* Sender::modify run to completion: Some (state, Ok?) *)
-Definition op_modify (u : option upd) (s : state) : option (state * bool) :=
+Definition op_modify (u : closure) (s : state) : option (state * bool) :=
   match step s SCheck with
   | None => None
   | Some s1 =>
@@ -316,15 +330,16 @@ Definition op_poll (s : state) : option (state * poll_result) :=
   end.
 
 (* ---- the scripted operations of the exhaustive tie -------------------------------------- *)
-Inductive op := OMerge (x : upd) | ONoop | ODropSender | OPoll | OCancel | ODropReceiver | OTry.
+Inductive op := OMerge (x : upd) | ONoop | OClear | ODropSender | OPoll | OCancel | ODropReceiver | OTry.
 (* what the harness observes of one operation *)
 Inductive obs :=
 | ObsSend (ok : bool) | ObsUnit | ObsPoll (r : poll_result) | ObsTry (v : option (list upd)).
 
 Definition run_op (o : op) (s : state) : option (state * obs) :=
   match o with
-  | OMerge x => match op_modify (Some x) s with Some (s', b) => Some (s', ObsSend b) | None => None end
-  | ONoop => match op_modify None s with Some (s', b) => Some (s', ObsSend b) | None => None end
+  | OMerge x => match op_modify (CMerge x) s with Some (s', b) => Some (s', ObsSend b) | None => None end
+  | ONoop => match op_modify CNoop s with Some (s', b) => Some (s', ObsSend b) | None => None end
+  | OClear => match op_modify CClear s with Some (s', b) => Some (s', ObsSend b) | None => None end
   | ODropSender => match op_drop_sender s with Some s' => Some (s', ObsUnit) | None => None end
   | OPoll => match op_poll s with Some (s', r) => Some (s', ObsPoll r) | None => None end
   | OCancel => match step s RCancel with Some s' => Some (s', ObsUnit) | None => None end
@@ -375,6 +390,12 @@ Definition spec_op (o : op) (a : astate) (wk : nat) : option (obs * astate) :=
            else Some (ObsSend false, a)
       else None
   | ONoop => if a_salive a then Some (ObsSend (a_ralive a), a) else None
+  | OClear =>      (* the producer retracts what is pending (if the consumer still exists) *)
+      if a_salive a
+      then if a_ralive a
+           then Some (ObsSend true, mkA [] true true (a_parked a) (a_base a))
+           else Some (ObsSend false, a)
+      else None
   | ODropSender =>
       if a_salive a then Some (ObsUnit, mkA (a_pend a) false (a_ralive a) (a_parked a) (a_base a)) else None
   | OPoll =>
